@@ -146,6 +146,11 @@ static void t1_case(uint64_t index)
   if (index % 3 == 1 && ncorpus) { const char *path = corpus[(index / 3) % ncorpus]; kind = "xml"; hv_desc("validation: xml %s thissystem=%d\n", path, thissystem); t = tl_load_xmlfile(path, &c, &stage); }
   else { struct tg_synth_opts o; tg_synth_opts_default(&o); o.max_pus = 200; struct hv_str d; hv_str_init(&d); tg_synth_random(&R, &o, &d); kind = "synthetic"; hv_desc("validation: synthetic \"%s\" thissystem=%d\n", d.s, thissystem); t = tl_load_synthetic(d.s, &c, &stage); hv_str_free(&d); }
   if (!t) { hv_stat("source_load_failed", 1); fake_kernel = 0; return; }
+  if (hv_chance(&R, 1, 3)) {   /* a duplicate is the same kind of topology: it must validate and (not) reach the OS exactly like its original */
+    hwloc_topology_t t2 = NULL; hv_ctxkey("t1:dup");
+    if (hwloc_topology_dup(&t2, t) == 0) { hwloc_topology_destroy(t); t = t2; hv_desc("  (calls are made on a hwloc_topology_dup() of it)\n"); hv_stat("t1.on_duplicate", 1);
+      if (!!hwloc_topology_is_thissystem(t) != thissystem) hv_viol("dup.thissystem_differs", "is_thissystem of the duplicate is %d, of the original %d", hwloc_topology_is_thissystem(t), thissystem); }
+  }
   if (!!hwloc_topology_is_thissystem(t) != thissystem) { hv_stat("thissystem_flag_not_honoured", 1); thissystem = hwloc_topology_is_thissystem(t); }
   hwloc_const_bitmap_t tcs = hwloc_topology_get_topology_cpuset(t), ccs = hwloc_topology_get_complete_cpuset(t), tns = hwloc_topology_get_topology_nodeset(t), cns = hwloc_topology_get_complete_nodeset(t);
   if (hwloc_bitmap_last(ccs) >= 4000 || hwloc_bitmap_last(cns) >= 4000) { hwloc_topology_destroy(t); fake_kernel = 0; return; }
@@ -264,6 +269,11 @@ static void t1_case(uint64_t index)
 static int real_getaff(hwloc_bitmap_t out) { cpu_set_t s; CPU_ZERO(&s); if (sched_getaffinity(0, sizeof s, &s) != 0) return -1; hwloc_bitmap_zero(out); for (int i = 0; i < CPU_SETSIZE; i++) if (CPU_ISSET(i, &s)) hwloc_bitmap_set(out, (unsigned)i); return 0; }
 static int real_setaff(hwloc_const_bitmap_t in) { cpu_set_t s; CPU_ZERO(&s); int id; hwloc_bitmap_foreach_begin(id, in) CPU_SET(id, &s); hwloc_bitmap_foreach_end(); return sched_setaffinity(0, sizeof s, &s); }
 
+/* a second thread of the process, bound elsewhere while the topology is loaded: the process binding (what RESTRICT_TO_CPUBINDING reads)
+ * then differs from the loading thread's own binding, which is the one that must be found unchanged afterwards */
+static volatile int helper_stop; static cpu_set_t helper_mask; static volatile int helper_bound;
+static void *helper_main(void *arg) { (void)arg; if (sched_setaffinity(0, sizeof helper_mask, &helper_mask) == 0) helper_bound = 1; else helper_bound = -1; while (!helper_stop) usleep(200); return NULL; }
+
 static void live_case(uint64_t index)
 {
   fake_kernel = 0;
@@ -277,9 +287,19 @@ static void live_case(uint64_t index)
   { int id; do { hwloc_bitmap_zero(sub); hwloc_bitmap_foreach_begin(id, orig) if (hv_chance(&R, 1, 3)) hwloc_bitmap_set(sub, (unsigned)id); hwloc_bitmap_foreach_end(); } while (hwloc_bitmap_iszero(sub)); }
   if (index % 8 == 7) hwloc_bitmap_copy(sub, orig);
   if (real_setaff(sub) != 0) { hv_stat("live.setaffinity_not_permitted", 1); goto out; }
+  pthread_t helper; int have_helper = 0;
+  if (hv_chance(&R, 1, 2)) {
+    int id; CPU_ZERO(&helper_mask); unsigned n = 0; hwloc_bitmap_foreach_begin(id, orig) if (hv_chance(&R, 1, 2)) { CPU_SET(id, &helper_mask); n++; } hwloc_bitmap_foreach_end();
+    if (!n) CPU_SET(hwloc_bitmap_last(orig), &helper_mask);
+    helper_stop = 0; helper_bound = 0;
+    if (pthread_create(&helper, NULL, helper_main, NULL) == 0) { have_helper = 1; while (!helper_bound) usleep(100); hv_stat("live.loads_with_second_thread", 1);
+      if (hv_chance(&R, 1, 2)) { flags |= HWLOC_TOPOLOGY_FLAG_RESTRICT_TO_CPUBINDING; hv_stat("live.loads_restrict_to_cpubinding", 1); } }
+  }
   real_getaff(before);
   if (comps[ci]) setenv("HWLOC_COMPONENTS", comps[ci], 1); else unsetenv("HWLOC_COMPONENTS");
-  hwloc_topology_t t; hwloc_topology_init(&t); hwloc_topology_set_flags(t, flags);
+  hwloc_topology_t t; hwloc_topology_init(&t);
+  if (hwloc_topology_set_flags(t, flags) != 0) { hv_stat("live.flag_combination_refused", 1); flags &= ~(unsigned long)HWLOC_TOPOLOGY_FLAG_RESTRICT_TO_CPUBINDING; hwloc_topology_set_flags(t, flags); }
+  flags = hwloc_topology_get_flags(t);      /* what the load will really use */
   if (hv_chance(&R, 1, 2)) hwloc_topology_set_io_types_filter(t, HWLOC_TYPE_FILTER_KEEP_ALL);
   char bs[200]; bm_str(before, bs, sizeof bs);
   hv_desc("live: components=%s flags=%#lx pre-bound to {%s}\n", comps[ci] ? comps[ci] : "(default)", flags, bs);
@@ -289,6 +309,7 @@ static void live_case(uint64_t index)
   logging = 0;
   unsetenv("HWLOC_COMPONENTS");
   real_getaff(after);
+  if (have_helper) { helper_stop = 1; pthread_join(helper, NULL); }
   hv_stat("live.loads", 1);
   if (os_count(OS_SETAFF) + os_count(OS_PT_SETAFF)) hv_stat("live.loads_that_rebound_the_thread", 1);
   if (!hwloc_bitmap_isequal(before, after)) { char as[200]; bm_str(after, as, sizeof as); hv_viol("live.load_changed_binding", "hwloc_topology_load (components %s, flags %#lx, rc %d) left the thread bound to {%s}, it was bound to {%s}", comps[ci] ? comps[ci] : "(default)", flags, lrc, as, bs); }
